@@ -118,9 +118,9 @@ class Check:
         if rc == 0 and (ninc > inconclusive_ok or len(self.distinct) < min_distinct or self.evaluations == 0):
             why = ('%d inconclusive cases' % ninc) if ninc > inconclusive_ok else 'monitor reached only %d distinct non-trivial cases (< %d)' % (len(self.distinct), min_distinct)
             print('INCONCLUSIVE property=%s %s' % (self.pid, why))
-            for w, wit in self.inconc[:5]:
-                print('  inconclusive:', short(w, 300), short(wit, 300) if wit else '')
             rc = 2
+        for w, wit in self.inconc[:5]:
+            print('  inconclusive case:', short(w, 300), short(wit, 600) if wit else '')
         cov = {
             'evaluations': self.evaluations,
             'distinct_nontrivial': len(self.distinct),
